@@ -14,7 +14,7 @@ import templates
 
 RULE = ('functor programs of C04 x 2 consistent renamings of all predicates to names that sort differently; '
         'generated programs over the full feature mask (aggregation, negation, injection, functional, nested '
-        'combines) x 6 variants each (rule/fact permutation, conjunct/disjunct permutation, variable renaming '
+        'combines) x 7 variants each (rule/fact permutation, conjunct/disjunct permutation, variable renaming '
         'with keyword pool, variable renaming with tricky pool, predicate renaming with keyword pool, predicate '
         'renaming with tricky pool); every predicate compared; non-trivial = non-empty result for some derived '
         'predicate; distinct by (program, variant)')
@@ -95,9 +95,49 @@ def run_functor_programs(ck):
               vname, q, ren[q], sorted(map(tuple, base[q]['rows']))[:3], sorted(map(tuple, res[q]['rows']))[:3]), rp)
 
 
+def named_job(j):
+  base_text, perm_text, preds = j
+  return semcheck.job_real((base_text, preds)), semcheck.job_real((perm_text, preds))
+
+
+def run_named_spelling(ck):
+  """programs whose rules spell their named arguments in different orders (also in aggregating heads, where a
+  diagnostic may reject the program: then nothing is judged): permuting the rules and facts at text level must
+  not change the rows of any predicate, read by column name."""
+  import json
+  import random as _random
+  made = semcheck.make_programs(ck, ck.budget(16, 200), MASK)
+  made += semcheck.make_programs(ck, ck.budget(8, 100), None, {'templates': ['t_mixed_head', 't_named_multibody']}, builder=templates.build)
+  jobs, meta = [], []
+  for i, (pr, _) in enumerate(made):
+    base = pr.text(G.Printer(named_order_rng=_random.Random(ck.seed * 31 + i), named_order_distinct=True))
+    lines = base.split('\n')
+    head, stmts = lines[:1], [l for l in lines[1:] if l.strip()]
+    stmts = list(reversed(stmts))       # every pair of rules changes its relative order
+    preds = [p.name for p in pr.preds if p.name not in pr.tie_preds and p.kind != 'facts']
+    jobs.append((base, '\n'.join(head + stmts) + '\n', preds))
+    meta.append(pr)
+  for pr, (base_text, perm_text, preds), (b, v) in zip(meta, jobs, core.pmap(named_job, jobs)):
+    ck.case([base_text, 'permute-rules-named-spelling'], any(b[q]['kind'] == 'ok' and b[q]['rows'] for q in preds), ['variant:permute-rules-named-spelling'])
+    for q in preds:
+      if b[q]['kind'] != 'ok' or v[q]['kind'] == 'too_big':
+        if b[q]['kind'] == 'parsing':
+          ck.features['named-spelling-rejected-by-diagnostic'] += 1
+        continue
+      rp = {'program': base_text, 'variant': 'permute-rules-named-spelling', 'variant_program': perm_text, 'pred': q}
+      if v[q]['kind'] != 'ok':
+        ck.violation('c07:permute-rules-named-spelling:outcome:%s' % v[q]['kind'], 'permuting rules makes %s fail: %s' % (q, v[q].get('message', '')[:160]), rp)
+        continue
+      def bag(res):
+        return sorted(json.dumps(dict(zip(res['header'], row)), sort_keys=True, default=str) for row in res['rows'])
+      if bag(b[q]) != bag(v[q]):
+        ck.violation('c07:permute-rules-named-spelling:rows', 'permuting rules changes predicate %s: %s... -> %s...' % (q, bag(b[q])[:2], bag(v[q])[:2]), rp)
+
+
 def run(ck):
   run_corpus(ck)
   run_functor_programs(ck)
+  run_named_spelling(ck)
   n = ck.budget(26, 300)
   made = semcheck.make_programs(ck, n, MASK)
   made += semcheck.make_programs(ck, ck.budget(14, 150), None, {}, builder=templates.build)
